@@ -407,6 +407,7 @@ import fieldmon  # noqa: E402,F401
 import hashmon  # noqa: E402,F401
 import codecmon  # noqa: E402,F401
 import ecdsamon  # noqa: E402,F401
+import blsmon  # noqa: E402,F401
 
 
 # ------------------------------------------------------------------------------------------
